@@ -151,11 +151,17 @@ func childMain(run *ev.Run, spec, store, root string) {
 			complete = false
 			break
 		}
-		if j > 0 && j%2000 == 0 {
-			w.handler.InvalidateCaches() // the cache stops admitting entries when full; keep "warm" reachable
+		if j > 0 && j%500 == 0 {
+			// the cache stops admitting entries once one of its 16 shards holds 625 (its FNV shard choice is
+			// skewed for similar texts): empty it through the handler's own API so that "warm" stays reachable
+			w.handler.InvalidateCaches()
 		}
 		q := mine[(start+j)%len(mine)]
+		wnr := c["cache_warm_state_not_reached"]
 		v := w.judgeCounted(q, c)
+		if c["cache_warm_state_not_reached"] != wnr && os.Getenv("VERIF_C16_DEBUG") != "" {
+			fmt.Fprintf(os.Stderr, "warm-not-reached j=%d stats=%v sql=%s hdr=%s\n", j, w.handler.VerifTransformCacheStats(), showSQL(q.SQL()), q.Hdr)
+		}
 		c["evaluations"]++
 		c["fam:"+q.Fam]++
 		if q.Hdr != "" {
@@ -641,6 +647,9 @@ func main() {
 		cmd.SysProcAttr = &syscall.SysProcAttr{Pdeathsig: syscall.SIGKILL}
 		var stderr bytes.Buffer
 		cmd.Stderr = &stderr
+		if os.Getenv("VERIF_C16_DEBUG") != "" {
+			cmd.Stderr = os.Stderr
+		}
 		pipe, err := cmd.StdoutPipe()
 		must(err, "pipe")
 		must(cmd.Start(), "start worker process")
@@ -971,8 +980,9 @@ func devMode(w *worker, nrows map[string]int) {
 			tWarm += time.Since(t2)
 			continue
 		}
-		v := w.judge(ln, hdr, false)
-		fmt.Printf("== [%s] %s\n   kind=%q %s\n", hdr, showSQL(ln), v.Kind, v.Detail)
+		cc := map[string]int64{}
+		v := w.judgeCounted(&query{Toks: []string{ln}, Glue: []bool{true}, Gaps: []string{""}, Hdr: hdr}, cc)
+		fmt.Printf("== [%s] %s\n   kind=%q %s cache=%v\n", hdr, showSQL(ln), v.Kind, v.Detail, cc)
 		if os.Getenv("VERIF_C16_DEV") == "2" {
 			b, _ := json.Marshal(v.Oracle)
 			fmt.Printf("   oracle: %s\n", b)
